@@ -102,6 +102,8 @@ def witness_matches(entry, ob, fail):
         return fail.get("event") in w["events"] and ("statuses" not in w or fail.get("status") in w["statuses"])
     if "pos_suffix" in w:
         return str(fail.get("pos") or "").split("/")[-1].split(":")[0] == w["pos_suffix"]
+    if "fields" in w:
+        return all(fail.get(k) == v for k, v in w["fields"].items())
     if "any" in w:
         return True
     return False
@@ -150,7 +152,9 @@ def _run(prop, tier, seed, meta, run_dir, t_start):
             print("CONTRACT-STALE %s" % e)
         return 2
     _G["eng"] = eng
-    idxs = [i for i, d in enumerate(eng.decls) if d.kind in ("func", "lemma", "history", "coverage", "frame") and _relevant(d, prop)
+    lockrel = eng.lock_relevant_funcs() if prop == "C20" else set()
+    idxs = [i for i, d in enumerate(eng.decls) if d.kind in ("func", "lemma", "history", "coverage", "frame")
+            and (_relevant(d, prop) or (d.kind == "func" and d.attrs.get("full") in lockrel))
             and not (d.kind == "func" and (("effectfree" in d.flags and not d.tags) or "assumed" in d.flags or "opaque" in d.flags))]
     declared = 0
     for i in idxs:
